@@ -19,7 +19,10 @@ fn make_val(id: u64, subnet: Option<u64>) -> Enr {
     // all record variants of one table key (ids 8k .. 8k+7) are records of one node: same signing key
     let mut r = Rng::new((id / 8).wrapping_mul(0x1234_5678_9ABC_DEF1) ^ 0xA5A5);
     let key: CombinedKey = key_from(&mut r);
-    let ip4 = subnet.map(|s| (Ipv4Addr::new(10, (s >> 8) as u8, s as u8, (id % 250 + 1) as u8), 9000 + (id % 1000) as u16));
+    // (host parts run over the whole /24, its first and its last address included: 10.0.0.255 is a host of
+    // 10.0.0.0/16 like any other, and /24 is only the granularity the table counts in)
+    let host = if id % 7 == 0 { 255 } else if id % 11 == 0 { 0 } else { (id % 250 + 1) as u8 };
+    let ip4 = subnet.map(|s| (Ipv4Addr::new(10, (s >> 8) as u8, s as u8, host), 9000 + (id % 1000) as u16));
     // records without IPv4 often have an IPv6 address from the low end of the address space
     // (`::a.b.c.d` would read as an IPv4 address if somebody converted it)
     let ip6 = if subnet.is_none() && id % 2 == 0 {
